@@ -36,6 +36,8 @@ type C16Case struct {
 	Pre      []WriteOp           `json:"pre"`
 	Phases   [][][]WriteOp       `json:"phases"`
 	CancelMs int                 `json:"cancel_ms,omitempty"`
+	// CancelToo (watch-error mode): the context is also cancelled at CancelMs, racing the watch failure
+	CancelToo bool `json:"cancel_too,omitempty"`
 	// items mode: reconcile outcome script per queue item (ok error requeue requeue-err skip panic)
 	Items       map[string][]string `json:"items,omitempty"`
 	Concurrency int                 `json:"concurrency,omitempty"`
@@ -137,6 +139,10 @@ func (c16) Gen(seed uint64, tier string) Case {
 	case "watch-error":
 		c.Hist = HistCfg{Initial: 1 + r.Intn(2), Gap: 0}
 		c.Hist.Max = c.Hist.Initial
+		if r.Bool(0.4) {
+			c.CancelToo = true
+			c.CancelMs = []int{0, 0, 0, 1, 50}[r.Intn(5)]
+		}
 	case "cancel":
 		c.CancelMs = r.Intn(6000)
 	}
@@ -477,10 +483,16 @@ func (c16) Run(t *testing.T, cs Case, trace bool) *Outcome {
 			running = append(running, tk)
 		}
 		w.Start(s, ctx)
-		if c.Mode == "cancel" {
+		cancelled := false
+		if c.Mode == "cancel" || c.CancelToo {
 			s.Spawn("canceller", func() {
 				simrt.Sleep(time.Duration(c.CancelMs) * time.Millisecond)
+				for i := 0; c.CancelToo && i < int(c.Seed%7); i++ {
+					simrt.Yield("cancel.delay") // a few scheduling steps into the burst
+				}
 				simrt.Yield("cancel")
+				cancelled = true
+				out.fault("cancel:runtime-context")
 				cancel()
 			})
 		}
@@ -511,8 +523,13 @@ func (c16) Run(t *testing.T, cs Case, trace bool) *Outcome {
 			if w.RunReturned {
 				break
 			}
-			if c.Mode == "faults" {
-				// healthy and recovered controllers are current at every quiescent point
+			if cancelled {
+				out.violate("C16/shutdown", "run-did-not-return", "Runtime.Run did not return after its context was cancelled (mode %s); live: %v", c.Mode, s.Live())
+				return
+			}
+			if c.Mode == "faults" || c.Mode == "watch-error" {
+				// healthy and recovered controllers are current at every quiescent point; in watch-error mode: as long as
+				// Run has not returned the watch error, no notification may have been lost silently
 				checkProbesCurrent("C16", w, probes, map[string]int{}, ph, out)
 				if out.Viol != nil {
 					return
@@ -601,7 +618,7 @@ func (c16) Run(t *testing.T, cs Case, trace bool) *Outcome {
 			} else {
 				out.probe("run-returned-on-watch-error")
 				out.Nontrivial = true
-				if w.RunErr == nil {
+				if w.RunErr == nil && !cancelled {
 					out.violate("C16/watch-error", "watch-error-swallowed", "Runtime.Run returned nil although its watch failed (history overrun)")
 					return
 				}
